@@ -994,7 +994,13 @@ impl Model {
             for i in 0..leaves.len() {
                 for j in (i + 1)..leaves.len() {
                     let same = match (leaves[i], leaves[j]) {
-                        (MSel::Ann { a, .. }, MSel::Ann { a: b, .. }) => a == b,
+                        (MSel::Ann { a, text: t }, MSel::Ann { a: b, text: u }) => {
+                            a == b
+                                || match (t, u) {
+                                    (Some(t), Some(u)) => t.res == u.res && t.b == u.b && t.e == u.e,
+                                    _ => false,
+                                }
+                        }
                         (x, y) => {
                             x == y
                                 || match (x.text_target(), y.text_target()) {
